@@ -45,7 +45,7 @@ def random_histories(rng, nhist, depth, queries=True):
                 elif p < 0.62:
                     a = catargs(rng.choice(cats), qt=rng.choice(qts + [NONE]), override=rng.random() < 0.5, frm=rng.choice([NONE, NONE, NONE] + cats))
                     if rng.random() < 0.4:
-                        a["valid"] = {"has": True, "s": rng.choice([[], ["cm"], ["1000ft3", "m"], ["s"], ["Mcf", "cm"], ["k(ft3)"]])}
+                        a["valid"] = {"has": True, "s": rng.choice([[], ["cm"], ["1000ft3", "m"], ["s"], ["s"], ["m"], ["Mcf", "cm"], ["k(ft3)"], ["s", "cm"]])}
                     if rng.random() < 0.3:
                         a["du"] = rng.choice(["cm", "1000ft3", "s", "m", "Mcf"])
                     if rng.random() < 0.3:
@@ -53,7 +53,7 @@ def random_histories(rng, nhist, depth, queries=True):
                     if rng.random() < 0.25:
                         a["min"] = {"has": True, "v": rng.choice([0, 2])}
                     if rng.random() < 0.25:
-                        a["max"] = {"has": True, "v": rng.choice([1, 3])}
+                        a["max"] = {"has": True, "v": rng.choice([0, 1, 3])}
                     a["minx"], a["maxx"] = rng.random() < 0.12, rng.random() < 0.12
                     op = "AddCategory"
                 elif p < 0.64:
